@@ -96,10 +96,9 @@ impl Pair {
     pub fn new() -> Self {
         let rt = tokio::runtime::Builder::new_multi_thread().worker_threads(4).enable_all().build().unwrap();
         let server = start_testing_server(&rt);
-        // no connection reuse for the HTTP/1.1 client: kvarn closes a HTTP/1 connection after answering a request whose
-        // body it did not read completely (F23) without announcing it, and a pooled connection would make the *next*
-        // request fail in the client library; persistent connections are C08's subject, C20 compares answers per request
-        let h1 = server.client().http1_only().pool_max_idle_per_host(0).build().unwrap();
+        // the HTTP/1.1 client reuses its connection: after a request whose body the handler did not read completely the
+        // server reads and discards the rest (F30), so the next request on the same connection is answered
+        let h1 = server.client().http1_only().build().unwrap();
         let h2 = server.client().http2_prior_knowledge().build().unwrap();
         Pair { rt, server, h1, h2 }
     }
